@@ -13,6 +13,8 @@ import Duckling.Lemmas.Chain
   * `C14_nest_exact`     **the limit is exact for every depth**: `k` IF / ELIF / ELSE blocks nested inside one another whose bodies run
                          (conditions true) around code that creates no stack compile with `d` stacks to spare iff `k ≤ d` — for
                          every `k` and every `d`, in every context and state: one more level is a StackOverflowError, one fewer is none;
+  * `C14_compile_nest_exact`  the same through `Compiler.compile`: a source that is such a nest of `k` blocks compiles under stack limit `L ≥ 1`
+                         without StackOverflowError iff `k < L` — for every `k` and `L`;
   * `C14_sequential`     blocks that follow one another consume no depth: running `a ++ b` is running `a`
                          and then `b` with the same depth budget;
   * `C14_repeat_over_limit` / `C14_repeat_within_limit`  REPEAT accepts exactly the counts 0 … 20000;
@@ -199,5 +201,32 @@ theorem else_head_runs (n : Nat) : (⟨⟨"ELSE".toList, n⟩, "ELSE".toList, no
   simp only [ifPre, hup, Option.map_none, Option.isNone_none, Option.isSome_none, bne_self_eq_false, Bool.and_false, Bool.false_and,
     Bool.false_eq_true, if_false, ifCond, R.bind_ok, ifDecide_eq, ifFlag_withFlag, hflag]
   simp
+
+theorem ifFlag_initial : ifFlag ({ env := initEnv } : St) = false := by
+  unfold initEnv
+  split <;> simp [ifFlag, assocGet]
+
+/-- **the stack limit is exact through `Compiler.compile`**: a program that is `k` running blocks nested inside one another around
+    stack-free code ends in StackOverflowError under limit `L ≥ 1` iff `L ≤ k` — it compiles (or fails for another reason) iff `k < L` -/
+theorem C14_compile_nest_exact (opts : Opts) (hlim : 1 ≤ opts.stackLimit) (fs : FS) (file : Option Path) (src : Source)
+    (heads : List Head) (leaf : List Node) (hl : leaf ≠ []) (hleaf : ∀ d ctx st, (exec d leaf ctx st).isSO = false)
+    (hok : ∀ h ∈ heads, h.Ok) (hruns : ∀ h ∈ heads, h.Runs) (hprep : prepare src = .ok (nest heads leaf)) :
+    (∃ e, compile opts fs file src = .err e ∧ e.k = .stackOverflow) ↔ opts.stackLimit ≤ heads.length := by
+  have hex := C14_nest_exact leaf hl hleaf heads hok hruns (opts.stackLimit - 1)
+    { opts := opts.flags, fs := fs, frames := [], file := file } { env := initEnv } ifFlag_initial
+  have hiff : (opts.stackLimit - 1 < heads.length) ↔ opts.stackLimit ≤ heads.length := by omega
+  rw [← hiff, ← hex]
+  unfold compile
+  simp only [hprep]
+  cases hr : exec (opts.stackLimit - 1) (nest heads leaf) { opts := opts.flags, fs := fs, frames := [], file := file } { env := initEnv } with
+  | ok r => simp [R.isSO]
+  | err e =>
+    simp only [R.isSO, beq_iff_eq]
+    constructor
+    · rintro ⟨e', he', hk⟩
+      cases he'; exact hk
+    · intro hk; exact ⟨e, rfl, hk⟩
+  | crash x => simp [R.isSO]
+  | oom w => simp [R.isSO]
 
 end Duckling.Props.C14
